@@ -37,6 +37,23 @@ def check_values(ctx, recs):
                 ctx.violation("state %d has no path to a final state but reports %r" % (s, p[s]), r.inp(), probs=p)
             if not (0 <= p[s] <= 1):
                 ctx.violation("state %d reports %r outside [0,1]" % (s, p[s]), r.inp(), probs=p)
+        # the loop's own guarantee (theorem C01_numeric): on every iterated state the Bellman residual lies in [0, threshold]
+        for s in can:
+            if s in g["final_states"] or not g["transition_list"][s]:
+                continue
+            row, k = g["transition_list"][s], g["players"][s]
+            if k == PR:
+                nxt = 0
+                for w, d in row:
+                    nxt += p[d] * w
+            elif k == P1:
+                nxt = max([0] + [p[d] for _, d in row])
+            else:
+                nxt = min([1] + [p[d] for _, d in row])
+            if not (-1e-9 <= nxt - p[s] <= sc.THR * (1 + 1e-6) + 1e-12):
+                ctx.violation("state %d: one more Bellman step gives %r, reported %r: the residual %g is outside [0, 1e-6] "
+                              "(the loop stopped before its own stopping rule was met)" % (s, nxt, p[s], nxt - p[s]), r.inp(), probs=p)
+                break
         key = sc.game_key(g)
         if key in by_game and by_game[key] != p:
             ctx.violation("probabilities differ between pruning modes", r.inp(), probs=p, other=by_game[key])
@@ -192,6 +209,7 @@ def run(ctx):
     sc.correspondence(ctx, recs, "cmp_probs", "c01")
     sc.padding_check(ctx, recs, ("probs",), 40 if ctx.quick else 400, "c01")
     sc.loglevel_check(ctx, recs, ("probs",), 25 if ctx.quick else 250, "c01")
+    sc.resolve_check(ctx, recs, ("probs",), 30 if ctx.quick else 300, "c01")
     check_values(ctx, recs)
     exact_vs_float(ctx, recs)
     float_trace_monotone(ctx, recs)
